@@ -356,6 +356,18 @@ class Calls(Interp):
             return self.eval_old(node.args[0])
         if isinstance(fn, ast.Name) and fn.id == "iter0" and self.spec_mode:
             return self.eval_iter0(node.args[0])
+        if isinstance(fn, ast.Name) and fn.id == "at_loop" and self.spec_mode:
+            # at_loop(k, e): e in the state at the start of the current iteration of loop #k of this function
+            k = node.args[0].value
+            heap = self.iter_by_ord.get(k)
+            if heap is None:
+                raise SpecError("at_loop(%r) outside that loop" % (k,))
+            cur = self.st.heap
+            self.st.heap = heap
+            try:
+                return self.ev(node.args[1])
+            finally:
+                self.st.heap = cur
         if isinstance(fn, ast.Name) and fn.id in ("forall", "exists") and self.spec_mode:
             return self.quant_lambda(fn.id, node)
         if isinstance(fn, ast.Name) and fn.id == "super" and not node.args:
@@ -673,9 +685,20 @@ class Calls(Interp):
             pv = env.get(pn)
             if isinstance(pv, SV) and pv.ty is None and ptag not in (None, "any"):
                 env[pn] = SV(pv.term, ptag)       # arguments are typed by the callee's contract (trusted typing)
-        env.update(self.context_vals)
+        for cn_, cv_ in self.context_vals.items():
+            env.setdefault(cn_, cv_)
         if func is not None and "self" in env and recv is None:
             recv = env["self"]
+        if c.context and not c.assumed or (c.context and func is not None):
+            # the callee's own context names are evaluated in the state before the call
+            saved_cls_ = self.spec_cls
+            if func is not None:
+                self.spec_cls = func.cls
+            try:
+                for cn_, cex_ in c.context.items():
+                    env[cn_] = self.spec_value(parse_expr(cex_), env)
+            finally:
+                self.spec_cls = saved_cls_
         if c.event and c.event != "property":
             if c.signature is not None and func is None and star is None and dstar is None:
                 # canonical payload: every parameter of the declared signature, positionally, defaults filled in
@@ -886,6 +909,17 @@ class Calls(Interp):
 
     def bi_getattr(self, args, kwargs, node):
         dyn = self.dyn_attr_name(args[1])
+        if dyn is not None and isinstance(args[0], SV) and parse_tag(args[0].ty)[0] in self.reg.shapes \
+                and self.reg.shape_method(parse_tag(args[0].ty)[0], "__getattr__") is None:
+            # getattr(obj, <computed name>) on an abstract object with a closed method set: one path per method
+            shape = parse_tag(args[0].ty)[0]
+            names = sorted(self.reg.shapes.get(shape, {}))
+            for nm in names:
+                if self.branch(Val.s(dyn) == z3.StringVal(nm), "getattr is %s" % nm):
+                    return self.get_attr(args[0], nm, node)
+            if len(args) > 2:
+                return args[2]
+            self.raise_builtin("AttributeError", node)
         if dyn is not None:
             # getattr(obj, <computed name>): the object's dynamic attribute table
             m = self.comp("$attrs")[self.refof(args[0], node)]
@@ -1778,6 +1812,17 @@ class Calls(Interp):
 
     def sp_store(self, args, kwargs, node):
         return PMap(z3.Store(self.as_map(args[0], node), self.to_term(args[1], node), self.to_term(args[2], node)))
+
+    def sp_pct(self, args, kwargs, node):
+        """the text of `fmt % (args...)`: the same uninterpreted total function the executor uses for the % operator"""
+        seq = so.seq_of([self.to_term(a, node) for a in args])
+        return SV(Val.strv(so.fmt(z3.StringVal("%"), seq)), "str")
+
+    def sp_joined(self, args, kwargs, node):
+        """the text of sep.join(items): same uninterpreted total function as the executor's str.join"""
+        sep = self.to_term(args[0], node)
+        seq = self.as_seq(args[1], node)
+        return SV(Val.strv(so.fmt(z3.StringVal("join"), z3.Concat(z3.Unit(sep), seq))), "str")
 
     def sp_asstr(self, args, kwargs, node):
         return SV(self.to_term(args[0], node), "str")
